@@ -17,6 +17,7 @@ struct SmartObject_
 {
 	AtomicCount rc;
 	SmartObject_() {}
+	SmartObject_(const SmartObject_&) {} // a copy (clone) is a new object: nothing refers to it yet
 	virtual ~SmartObject_() {}
 	virtual SmartObject_* clone() const { return new SmartObject_(*this); }
 };
